@@ -7,8 +7,12 @@ From VP Require Import Base.QcField Base.SeqMx Model.Numeric.
 Definition F : realFieldType := [realFieldType of Qc].
 Definition q (n : Z) (d : positive) : F := qmk n d.
 
-Definition num_state (mode : nat) (cu2 floor2 k2max : F) (o : state_obs F) : N :=
-  N.of_nat (check_state mode cu2 floor2 k2max o).
+Definition num_state (mode : nat) (cu2 floor2 k2max eps2 : F) (o : state_obs F) : N :=
+  N.of_nat (check_state mode cu2 floor2 k2max eps2 o).
+
+Definition num_rankdef (cu2 floor2 k2max eps2 : F) (n m : nat) (w : option (seq F)) (Phi Y : smx F)
+           (sel : seq nat) (C : smx F) (R : seq F) : N :=
+  N.of_nat (check_rankdef cu2 floor2 k2max eps2 n m w Phi Y sel C R).
 
 Definition num_stats (cu2 floor2 k2max : F) (n m p : nat) (w : option (seq F)) (Phi : smx F)
            (Ds : seq (smx F)) (y c : seq F) (o : stats_obs F) : N :=
